@@ -8,7 +8,7 @@ WT="$(mktemp -d /tmp/rux-mut.XXXXXX)"
 cleanup() { git -C /repo worktree remove --force "$WT" >/dev/null 2>&1; rm -rf "$WT"; git -C /repo worktree prune; }
 trap cleanup EXIT
 git -C /repo worktree add --detach -q "$WT" HEAD || exit 2
-if ! git -C "$WT" apply "$PATCH"; then echo "MUTANT $(basename "$PATCH"): patch does not apply"; exit 2; fi
+if ! git -C "$WT" apply "$PATCH" 2>/dev/null && ! git -C "$WT" apply --3way "$PATCH" 2>/dev/null; then echo "MUTANT $(basename "$PATCH"): patch does not apply"; exit 2; fi
 export GOFLAGS=-mod=mod GOPROXY=off GOSUMDB=off GOTOOLCHAIN=local
 if [ "${SUITE:-0}" = 1 ]; then
   if (cd "$WT" && go test -vet=off -count=1 ./... >/tmp/suite.$$.log 2>&1); then echo "MUTANT $(basename "$PATCH"): suite passes"; else echo "MUTANT $(basename "$PATCH"): SUITE FAILS"; grep -E "^(--- FAIL|FAIL|panic)" /tmp/suite.$$.log | head -5; fi
